@@ -111,7 +111,11 @@ def build_operator(case):
     fields = [qib.field.Field(PT.FERMION if p == "F" else PT.QUBIT, qib.lattice.IntegerLattice((n,))) for p, n in case["fields"]]
     T = _ctx["IFOType"]
     terms = []
-    for t in case["terms"]:
+    alias = {j: i for i, j in case.get("alias", [])}       # term j IS the Python object of term i (H + H, operators sharing a term)
+    for k, t in enumerate(case["terms"]):
+        if k in alias:
+            terms.append(terms[alias[k]])
+            continue
         descs = []
         for fid, ot in t["ops"]:
             d = _ctx["IFODesc"](fields[fid], T.FERMI_CREATE if ot == "C" else T.FERMI_ANNIHIL)
@@ -155,6 +159,13 @@ def impl_encode(case):
     except Exception as e:
         out["raised"] = kind_of(e)
         return out
+    if case.get("print_first"):
+        # the string view of the encoded operator is taken first (it must be read-only)
+        for view in (lambda: str(P), lambda: [str(w) for w in P.pstrings]):
+            try:
+                view()
+            except Exception:
+                pass      # printing an operator without strings raises (max of an empty list): not part of the property
     out["val"] = encode_out(P)
     L = case["fields"][0][1]
     if L <= 6:
@@ -584,7 +595,18 @@ def gen_random(op, tier, rng):
             ts.append(term([rng.choice("CA") for _ in range(k)], rand_coeffs(rng, L, k, style_for(L, k, rng.choice(["dense", "sparse", "sparse", "zero", "one"])))))
         if not any(t["ops"] for t in ts):
             ts.append(anchor(L))
-        yield dict(one_field(L, ts), op=op, cls="random")
+        c = dict(one_field(L, ts), op=op, cls="random")
+        if rng.random() < 0.3:
+            c["print_first"] = True
+        if rng.random() < 0.15:
+            # the SAME term object occurs twice (what `H + H`, the only way to write 2H, produces; or two operators sharing a term)
+            i = rng.randrange(len(ts))
+            c["terms"] = ts + [ts[i]]
+            c["alias"] = [[i, len(ts)]]
+        elif rng.random() < 0.05:
+            c["terms"] = ts + ts
+            c["alias"] = [[i, len(ts) + i] for i in range(len(ts))]
+        yield c
 
 
 def gen_cases(tier, rng, enc):
